@@ -176,6 +176,19 @@ def oracle_bind_scopes(src, ops, tail):
                 n = op.nodes.get(r)
                 if n is not None and n["valid"] and src[op.idx].startswith("stabilise") and op.result.startswith("ok"):
                     return f"op {op.idx}: node {r} of a superseded bind run is still valid"
+            # (nested binds) when a bind's main node is invalid, every node its closure created is invalid too
+            if src[op.idx].startswith("stabilise") and op.result.startswith("ok"):
+                main_of = {n["children"][0]: r for r, n in op.nodes.items()
+                           if n is not None and n["kind"] == "BindMain" and n["children"]}
+                for r, n in op.nodes.items():
+                    if n is None or not n["valid"]:
+                        continue
+                    sc = n.get("scope", "T")
+                    if sc.startswith("B") and sc[1:].isdigit():
+                        m = op.nodes.get(main_of.get(int(sc[1:])))
+                        if m is not None and not m["valid"]:
+                            return (f"op {op.idx}: node {r} was created by the closure of bind {sc[1:]}, whose main node "
+                                    f"{main_of[int(sc[1:])]} is invalid, but it is still valid")
             # observed map-like nodes with an invalid input must be invalid
             if src[op.idx].startswith("stabilise") and op.result.startswith("ok"):
                 for r, n in op.nodes.items():
